@@ -314,6 +314,7 @@ def gen_description(rng: Any) -> dict[str, Any]:
     names = rng.sample(README_NAMES, nreadme)
     d["readmes"] = [[nm, gen_multiline(rng, 0, 8) if rng.random() < 0.9 else ""] for nm in names]
     d["readme_ctype"] = rng.choice([None, None, "text/markdown", "text/x-rst; charset=UTF-8", "text/plain", "text/markdown; variant=GFM"])
+    d["readme_inline"] = len(d["readmes"]) == 1 and rng.random() < 0.2   # [project].readme = {text = …, content-type = …}
     deps = rng.sample(DEPS, rng.choice([0, 0, 1, 2, 3]))
     extras = rng.sample(EXTRA_NAMES, rng.choice([0, 0, 1, 2]))
     d["deps"] = [[n2, spec, (rng.choice(extras) if extras and rng.random() < 0.5 else None)] for n2, spec in deps]
@@ -367,7 +368,9 @@ def render_project(d: dict[str, Any]) -> tuple[dict[str, Any], dict[str, str]] |
         p["requires-python"] = PY_RANGES[d["python"]][1]
     if len(d["readmes"]) > 1:
         return None
-    if d["readmes"]:
+    if d["readmes"] and d.get("readme_inline"):
+        p["readme"] = Inline({"text": d["readmes"][0][1], "content-type": d["readme_ctype"] or "text/plain"})
+    elif d["readmes"]:
         nm, content = d["readmes"][0]
         files[nm] = content
         if d["readme_ctype"]:
@@ -420,7 +423,7 @@ def render_legacy(d: dict[str, Any]) -> tuple[dict[str, Any], dict[str, str]] | 
         deps["python"] = PY_UNIONS[d["python_union"]]
     elif d["python"] is not None:
         deps["python"] = PY_RANGES[d["python"]][0]
-    if d["readme_ctype"] and d["readmes"]:
+    if (d["readme_ctype"] or d.get("readme_inline")) and d["readmes"]:
         return None
     if d["readmes"]:
         for nm, content in d["readmes"]:
@@ -879,11 +882,16 @@ def oracle(d: dict[str, Any], style: str, text: str) -> list[tuple[str, str]]:
             if (canonicalize_name(n), mk) not in seen:
                 bad.append(("Requires-Dist", f"dependency {n} (extra {e}) not found in {rd!r}"))
     # content type and body
-    if d["readmes"]:
-        want_ct = d["readme_ctype"] if (d["readme_ctype"] and style == "project") else \
+    if d.get("readme_inline") and d["readmes"] and not d["readmes"][0][1]:
+        # `if package.readme_content:` - an empty inline text gives no body; the declared content-type is still written
+        single("Description-Content-Type", d["readme_ctype"] or "text/plain")
+        if pm["body"] != "":
+            bad.append(("body", f"empty inline readme but body {pm['body'][:60]!r}"))
+    elif d["readmes"]:
+        want_ct = (d["readme_ctype"] or "text/plain") if d.get("readme_inline") else d["readme_ctype"] if (d["readme_ctype"] and style == "project") else \
             {".rst": "text/x-rst", ".md": "text/markdown", ".markdown": "text/markdown"}.get(Path(d["readmes"][0][0]).suffix, "text/plain")
         single("Description-Content-Type", want_ct)
-        want_body = "\n".join(c if _n == "<inline>" else text_mode(c) for _n, c in d["readmes"]) + "\n"
+        want_body = "\n".join(c if (_n == "<inline>" or d.get("readme_inline")) else text_mode(c) for _n, c in d["readmes"]) + "\n"
         if pm["body"] != want_body:
             bad.append(("body", f"readme body not verbatim: declared {want_body[:80]!r}, parsed {pm['body'][:80]!r}"))
     else:
@@ -995,7 +1003,10 @@ def cases_of(d: dict[str, Any], pair: int) -> list[dict[str, Any]]:
     for style, fn in (("project", render_project), ("legacy", render_legacy)):
         r = fn(d)
         if r is not None:
-            out.append({"d": d, "style": style, "doc": r[0], "files": r[1], "pair": pair})
+            c: dict[str, Any] = {"d": d, "style": style, "doc": r[0], "files": r[1], "pair": pair}
+            if d.get("readme_inline") and d["readmes"]:
+                c["finding_key"] = "project-readme-text-as-path"   # key used should the pre-fix behaviour come back
+            out.append(c)
     return out
 
 
@@ -1175,13 +1186,13 @@ def run_malformed(ctx: core.Ctx, cases: list[dict[str, Any]], stream: str = "mal
 def finding_cases() -> list[dict[str, Any]]:
     base = {"name": "pkg", "version": "1.0", "description": "d", "authors": [], "maintainers": [], "license": None, "keywords": [],
             "classifiers": [], "classifiers_static": False, "urls": [], "python": None, "python_union": None, "readmes": [], "readme_ctype": None,
-            "deps": []}
+            "readme_inline": False, "deps": []}
     out = []
 
     def add(key: str, style: str, d_over: dict[str, Any], doc: dict[str, Any], files: dict[str, str] | None = None) -> None:
         d = {**base, **d_over}
         out.append({"d": d, "style": style, "doc": doc, "files": files or {}, "pair": 2 * 10 ** 6 + len(out), "finding_key": key, "expect_valid": True})
-    add("project-readme-text-as-path", "project", {"readmes": [["<inline>", "# Title\n\nBody text.\n"]], "readme_ctype": "text/markdown"},
+    add("project-readme-text-as-path", "project", {"readmes": [["<inline>", "# Title\n\nBody text.\n"]], "readme_ctype": "text/markdown", "readme_inline": True},
         {"project": {"name": "pkg", "version": "1.0", "description": "d",
                      "readme": Inline({"text": "# Title\n\nBody text.\n", "content-type": "text/markdown"})}})
     add("project-author-email-only", "project", {"authors": [{"name": None, "email": "me@example.com"}]},
